@@ -182,7 +182,10 @@ fn add_types_recursive(
     module: &naga::Module,
     ty: Handle<Type>,
 ) {
-    types.insert(ty);
+    // Each type only needs to be visited once.
+    if !types.insert(ty) {
+        return;
+    }
 
     match &module.types[ty].inner {
         naga::TypeInner::Pointer { base, .. } => add_types_recursive(types, module, *base),
